@@ -10,6 +10,16 @@ STANDING_ASSUMPTIONS = [
 ]
 
 PROPERTIES = {
+    'C10': {
+        'units': ['store', 'storelemmas', 'index', 'keys'],
+        'sample_functions': ['Store::handle_deletion_event', 'Store::remove_replaceable', 'Store::remove_by_offset'],
+        'not_decided': [],
+    },
+    'C09': {
+        'units': ['store', 'storelemmas', 'index', 'keys'],
+        'sample_functions': ['Store::find_parameterized_replaceable_event_inner', 'Store::remove_replaceable', 'Lmdb::akc_iter'],
+        'not_decided': [],
+    },
     'C17': {
         'units': ['keys', 'index'],
         'sample_functions': ['Lmdb::index', 'Lmdb::deindex', 'Lmdb::key_atc_index'],
